@@ -88,12 +88,28 @@ def encLog (l : IterLog) : String :=
     | none => "-"
     | some (u, c) => encList [encList ((u.map encCoverEntry).mergeSort leStr), encCover c]]
 
+/-- one record at warning level: residue names in order, atoms (key, name as `str.format` prints it) sorted by key -/
+def encWarn (w : WarnRec) : String :=
+  let ats := w.atoms.mergeSort fun a b => decide (a.1 ≤ b.1)
+  encList [encList (w.residues.map encStr), encList (ats.map fun a => encList [encInt a.1, encStr (fmtOpt a.2)])]
+
+def encIdRes : IdRes → String
+  | .ok u c => "ok " ++ encList ((u.map encCoverEntry).mergeSort leStr) ++ " " ++ encCover c
+  | .keyError rm => "keyerror " ++ encInts (sortInts rm)
+  | .outOfFuel => "out-of-fuel"
+
+def groupOf (t : Tok) : Option Group := do
+  match ← t.list? with
+  | [a, b] => pure { atoms := ← ints? a, anchors := ← ints? b }
+  | _ => none
+
 def encOutcome (sortMods : Bool) : Outcome → String
   | .outOfFuel => "out-of-fuel"
   | .done s =>
     let atoms := s.mol.atoms.mergeSort fun a b => decide (a.key ≤ b.key)
     "ok " ++ encList (s.log.map encLog) ++ " " ++ encList (atoms.map (encAtom sortMods)) ++ " "
-      ++ encList (s.warnings.map fun w => encInts (sortInts w))
+      ++ encList (s.warnings.map fun w => encInts (sortInts w)) ++ " " ++ encList (s.wlog.map encWarn)
+      ++ " removed=" ++ encInts (sortInts s.removed)
 
 def handle (_ : Unit) (toks : List Tok) : Unit × String :=
   let r : Option String :=
@@ -112,6 +128,28 @@ def handle (_ : Unit) (toks : List Tok) : Unit × String :=
         let m ← molOf ats es
         let mods ← (← ms.list?).mapM modifOf
         pure (encOutcome (← boolOf sm) (fixPtm m mods (← givenOf gv)))
+    | [Tok.str "identify", ats, es, ms, gs, gv] => do
+        /- `identify_ptms(residue, residue_ptms, options)` called directly, `annotated=None`: the
+        modifications already known are read from the nodes of the residue -/
+        let m ← molOf ats es
+        let mods ← (← ms.list?).mapM modifOf
+        let groups ← (← gs.list?).mapM groupOf
+        let given ← (← gv.list?).mapM fun op => do (← op.list?).mapM pairsOf
+        let annot : Int → List Nat := fun k => ((m.atoms.find? fun a => a.key == k).map (·.mods)).getD []
+        let al := allowed m.atoms m.edges mods
+        pure (encNats al ++ " " ++ encBool (candsOk m.atoms m.edges mods given) ++ " "
+          ++ encIdRes (identify m.atoms m.edges mods annot groups (al.zip given)))
+    | [Tok.str "history", jobs] => do
+        /- one processor instance, several calls: [ [atoms edges mods given sortmods] ... ] -/
+        let js ← (← jobs.list?).mapM fun jt => do
+          match ← jt.list? with
+          | [ats, es, ms, gv, sm] =>
+            let m ← molOf ats es
+            let mods ← (← ms.list?).mapM modifOf
+            pure ((m, mods, ← givenOf gv), ← boolOf sm)
+          | _ => none
+        let outs := ((Proc.mk).runHistory (js.map (·.1))).2
+        pure (String.intercalate " || " ((outs.zip (js.map (·.2))).map fun os => encOutcome os.2 os.1))
     | [Tok.str "fixptmref", ats, es, ms] => do
         let m ← molOf ats es
         let mods ← (← ms.list?).mapM modifOf
